@@ -122,13 +122,48 @@ def _eval_op(b, op, reach, env, call_name, depth):
     return env.get(k) if k else None
 
 
+def _discr_local(d):
+    """the local whose discriminant is switched on, when the place is a bare local (possibly behind derefs)"""
+    from .facts import pl_local, pl_proj
+    if d['k'] != 'discr':
+        return None
+    p = d['pl']
+    if isinstance(p, int):
+        return p
+    if all(e == '*' for e in pl_proj(p)):
+        return pl_local(p)
+    return None
+
+
+def resolve_variant(b, local, reach):
+    """variant of an enum-valued local that is assigned in several branches, given the blocks feasible under env: known when every feasible
+    definition builds the same variant (`let x = match .. { (Some(a), Some(b)) => Some((a, b)), _ => None }` under an env that excludes `_`)"""
+    defs = [d for d in b.defs.get(local, []) if d[1] in reach]
+    if not defs:
+        return None
+    vs = set()
+    for kind, bb, j, node in defs:
+        if kind != 'stmt':
+            return None
+        rv = node['rv']
+        if rv['k'] == 'agg' and rv.get('ak') == 'adt':
+            vs.add(rv.get('variant'))
+        else:
+            return None
+    return vs.pop() if len(vs) == 1 else None
+
+
 def table_walk(b, classify, env, call_name=lambda t: None, rounds=4):
-    """walk under env; switches on multi-def flag locals are resolved from their latest feasible definition"""
+    """walk under env; switches on multi-def flag locals are resolved from their latest feasible definition, switches on the variant of a
+    multi-def enum local from the variant all its feasible definitions build"""
     flags = {}
 
     def classify2(d, term):
         if d['k'] == 'multi' and d.get('l') in flags:
             return ('bool', ('flag', d['l']))
+        l = _discr_local(d)
+        if l is not None and ('v', l) in flags:
+            return ('variant', ('flag', ('v', l)))
         return classify(d, term)
     r = None
     for _ in range(rounds):
@@ -148,6 +183,11 @@ def table_walk(b, classify, env, call_name=lambda t: None, rounds=4):
                 v = resolve_flag(b, d['l'], r, env, call_name)
                 if v is not None:
                     new[d['l']] = v
+            l = _discr_local(d)
+            if l is not None and len(b.defs.get(l, [])) > 1 and classify(d, t) is None:
+                v = resolve_variant(b, l, r)
+                if v is not None:
+                    new[('v', l)] = v
         if new == flags:
             break
         flags = new
@@ -163,6 +203,9 @@ def escapes_under(b, classify, env, via_blocks, escape_edges=(), call_name=lambd
     def classify2(d, term):
         if d['k'] == 'multi' and d.get('l') in flags:
             return ('bool', ('flag', d['l']))
+        l = _discr_local(d)
+        if l is not None and ('v', l) in flags:
+            return ('variant', ('flag', ('v', l)))
         return classify(d, term)
     env2 = dict(env)
     for l, v in flags.items():
